@@ -200,9 +200,12 @@ pub mod common {
             None => String::new(),
         };
         if out == "unit" {
-            match r.below(3) {
+            match r.below(6) {
                 0 => format!("{{\"parameters\":{{}}{c}}}"),
                 1 => format!("{{\"parameters\":null{c}}}"),
+                // members nobody asked for (a newer service), names spelled literally and with escapes
+                2 => format!("{{\"parameters\":{{\"extra\":{},\"nested\":[1,{{\"a\":null}}]}}{c}}}", r.below(100)),
+                3 => format!("{{\"parameters\":{{\"r\\u00e9sultat\":\"x\",\"a\\/b\":true,\"s\\u0065q\":{}}}{c}}}", r.below(100)),
                 _ => {
                     if c.is_empty() {
                         "{}".to_string()
@@ -212,7 +215,13 @@ pub mod common {
                 }
             }
         } else {
-            format!("{{\"parameters\":{{\"v\":{},\"s\":\"r{}\"}}{c}}}", r.below(100000), r.below(1000))
+            let (v, t) = (r.below(100000), r.below(1000));
+            match r.below(5) {
+                0 => format!("{{\"parameters\":{{\"s\":\"r{t}\",\"v\":{v}}}{c}}}"),
+                1 => format!("{{\"parameters\":{{\"v\":{v},\"unknown\":[{{}}],\"s\":\"r{t}\"}}{c}}}"),
+                2 => format!("{{ \"parameters\" : {{ \"\\u0076\" : {v} , \"s\" : \"r{t}\" }}{c} }}"),
+                _ => format!("{{\"parameters\":{{\"v\":{v},\"s\":\"r{t}\"}}{c}}}"),
+            }
         }
     }
     fn error_frame(r: &mut Rng) -> String {
